@@ -646,16 +646,18 @@ func (kgdb *KVInterfaceGDB) GetOutEdgeChannel(ctx context.Context, reqChan chan 
 								if load {
 									ekey := EdgeKey(kgdb.graph, eid, src, dst, label, edgeType)
 									dataValue, err := it.Get(ekey)
-									ge := gripql.Edge{}
-									if err == nil {
-										proto.Unmarshal(dataValue, &ge)
-										e.ID = string(eid)
-										e.From = string(src)
-										e.To = dst
-										e.Label = label
-										e.Data = ge.Data.AsMap()
-										e.Loaded = true
+									if err != nil {
+										// the edge is being deleted: its record is gone already
+										continue
 									}
+									ge := gripql.Edge{}
+									proto.Unmarshal(dataValue, &ge)
+									e.ID = string(eid)
+									e.From = string(src)
+									e.To = dst
+									e.Label = label
+									e.Data = ge.Data.AsMap()
+									e.Loaded = true
 								} else {
 									e.ID = string(eid)
 									e.From = string(src)
@@ -703,16 +705,18 @@ func (kgdb *KVInterfaceGDB) GetInEdgeChannel(ctx context.Context, reqChan chan g
 								if load {
 									ekey := EdgeKey(kgdb.graph, eid, src, dst, label, edgeType)
 									dataValue, err := it.Get(ekey)
-									if err == nil {
-										ge := gripql.Edge{}
-										proto.Unmarshal(dataValue, &ge)
-										e.ID = string(eid)
-										e.From = string(src)
-										e.To = dst
-										e.Label = label
-										e.Data = ge.Data.AsMap()
-										e.Loaded = true
+									if err != nil {
+										// the edge is being deleted: its record is gone already
+										continue
 									}
+									ge := gripql.Edge{}
+									proto.Unmarshal(dataValue, &ge)
+									e.ID = string(eid)
+									e.From = string(src)
+									e.To = dst
+									e.Label = label
+									e.Data = ge.Data.AsMap()
+									e.Loaded = true
 								} else {
 									e.ID = string(eid)
 									e.From = string(src)
